@@ -66,7 +66,7 @@ def run_shard(desc, ctx):
             for cs in range(1, 9):
                 run_case({'kind': 'file_bounds', 'sizes': list(sizes), 'chunk': cs}, ctx)
             if nf <= 3:
-                run_case({'kind': 'flat_reader', 'sizes': list(sizes), 'chunks': list(range(1, 9)), 'same_name': idx % 3 == 0}, ctx)
+                run_case({'kind': 'flat_reader', 'sizes': list(sizes), 'chunks': list(range(1, 9)), 'same_name': idx % 3 == 0, 'stray': idx % 4 == 1}, ctx)
     # chunk durations that are not a whole number of samples (calibrated sampling rates): the chunk length is the
     # rounded number of samples; recordings of many chunks, parts with equal base names in different folders
     fr = [[50, 31, 7], [88], [23, 23], [7, 64, 1, 9], [150]]
@@ -284,9 +284,11 @@ def _case_flat_reader(case, ctx):
     d = scratch_dir('c16_')
     try:
         offset = [0, 16, 4, 7][sum(sizes) % 4]          # header bytes: 16 = four whole rows of 2 int16 channels
-        paths = L.write_flat(d, A, sizes, offset=offset, ext='.bin', same_name=bool(case.get('same_name')))
+        paths = L.write_flat(d, A, sizes, offset=offset, ext='.bin', same_name=bool(case.get('same_name')), stray=bool(case.get('stray')))
         for cs_f in case['chunks']:
             cs = int(round(cs_f))        # the chunk length of a reader: the rounded number of samples in 600 s
+            if cs_f * 2 == int(cs_f * 2) and cs_f != int(cs_f):
+                cs = int(cs_f + 0.5)     # exactly x.5: the statement fixes no tie rule, the larger rounding is accepted
             ctx.count(1, key=hkey('fr', tuple(sizes), cs_f, bool(case.get('same_name'))), nontrivial=min(sizes) < cs and len(sizes) > 1,
                       cell=('flat_reader', 'nf%d' % len(sizes)))
             r = call(get_ephys_reader, list(paths), sample_rate=cs_f / 600., dtype=np.int16, n_channels=2, offset=offset)
@@ -404,5 +406,21 @@ def _case_cbin_reader(case, ctx):
                         ctx.violation('bad_reader_chunk_bounds', sub, 'chunk_bounds %s' % cb)
                     _check_iter(rd, A, sub, ctx, cache=cache)
                     rd.reader.close()
+        # history: the file is opened by its path, recompressed under the same name with another length, opened again
+        r1 = call(get_ephys_reader, path)
+        if r1.ok:
+            call(lambda: r1.value.reader.close())
+            A2 = L.unique_cells(n + 5, 3, np.int16)
+            path2 = L.write_cbin(d, A2, 100., max(1, cl - 1) if cl > 1 else 2, n_threads=2)
+            r2 = call(get_ephys_reader, path2)
+            ctx.count(1, cell=('cbin_reader', 'reopened_by_path'))
+            if str(path2) == str(path) and r2.ok:
+                cb = [int(x) for x in r2.value.chunk_bounds]
+                if cb[-1] != n + 5 or r2.value.n_samples != n + 5:
+                    ctx.violation('bad_reader_chunk_bounds', dict(case, reopened=True), 'file recompressed with %d samples and opened again by its path: '
+                                  'chunk_bounds end at %d, n_samples %r' % (n + 5, cb[-1], r2.value.n_samples))
+                else:
+                    _check_iter(r2.value, A2, dict(case, reopened=True), ctx, cache=False)
+                call(lambda: r2.value.reader.close())
     finally:
         shutil.rmtree(d, ignore_errors=True)
